@@ -1,5 +1,87 @@
-"""C05 part B (published name lists); filled in once the expansion model exists."""
+"""C05 part B: published name lists (sorted, equal to the serialised names) and real compilation of
+contracts with and without a name shared between parts."""
+from .. import common, rustc_batch
+from . import msgprops
+
+PRELUDE = """#![allow(unused_imports, unused_variables, dead_code, non_snake_case)]
+use svfw::cw_std::{Response, StdError, StdResult};
+use svfw::ctx::{ExecCtx, InstantiateCtx, QueryCtx, SudoCtx};
+"""
+
+
+def pair_program(iface_methods, contract_methods, kind):
+    ctx = {"exec": "ExecCtx", "query": "QueryCtx", "sudo": "SudoCtx"}[kind]
+    ret_i = "Result<u32, Self::Error>" if kind == "query" else "Result<Response, Self::Error>"
+    ret_c = "StdResult<u32>" if kind == "query" else "StdResult<Response>"
+    body = "Ok(0)" if kind == "query" else "Ok(Response::new())"
+    out = [PRELUDE, "pub mod iface {", "    use super::*;", "    #[svfw::interface]", "    #[sv::custom(msg=svfw::cw_std::Empty, query=svfw::cw_std::Empty)]",
+           "    pub trait Iface {", "        type Error: From<StdError>;"]
+    for m in iface_methods:
+        out.append("        #[sv::msg(%s)] fn %s(&self, ctx: %s) -> %s;" % (kind, m, ctx, ret_i))
+    out += ["    }", "}", "pub struct Ctr;", "#[svfw::contract]", "#[sv::messages(iface)]", "impl Ctr {",
+            "    pub const fn new() -> Self { Self }",
+            "    #[sv::msg(instantiate)] pub fn instantiate(&self, ctx: InstantiateCtx) -> StdResult<Response> { Ok(Response::new()) }"]
+    for m in contract_methods:
+        out.append("    #[sv::msg(%s)] pub fn %s(&self, ctx: %s) -> %s { %s }" % (kind, m, ctx, ret_c, body))
+    out += ["}", "impl iface::Iface for Ctr {", "    type Error = StdError;"]
+    for m in iface_methods:
+        out.append("    fn %s(&self, ctx: %s) -> %s { %s }" % (m, ctx, ret_i.replace("Self::Error", "StdError"), body))
+    out += ["}", "fn main() {}"]
+    return "\n".join(out) + "\n"
+
+
+def wire(n):
+    """serde's key for method n, independently of the model: UpperCamel by underscores/case/digit boundaries is
+    not re-implemented here; only names whose wire form is evident are planted (see PAIRS)."""
+    return n
+
+
+# (interface methods, contract methods, shares a wire name?) - planted by hand so that the expected verdict
+# does not depend on any casing model: `round_1`/`round1` both serialise as "round1"; `a_b`/`ab` do not collide
+PAIRS = [
+    (["pause", "unpause"], ["deposit", "pause"], True),
+    (["pause", "unpause"], ["deposit", "withdraw"], False),
+    (["round1", "round3"], ["round_1", "round2"], True),
+    (["round1", "round3"], ["round_2", "round4"], False),
+    (["a_b"], ["ab"], False),
+    (["set_x_y", "alpha"], ["set_xy", "beta"], False),
+    (["foo1_bar"], ["foo1_bar"], True),
+    (["zeta", "alpha", "mid"], ["omega", "mid_", "beta"], True),
+    (["zeta", "alpha", "mid"], ["omega", "mi_d", "beta"], False),
+    (["b", "d", "f"], ["a", "c", "e", "f"], True),
+    (["b", "d", "f"], ["a", "c", "e", "g"], False),
+    (["only"], [], False),
+]
+
+
+def check_compiled_pairs(run, rng, thorough):
+    kinds = ["exec", "query", "sudo"]
+    files, meta = {}, {}
+    pairs = PAIRS if thorough else [PAIRS[i] for i in (0, 1, 2, 4, 7, 8)]
+    for i, (im, cm, shared) in enumerate(pairs):
+        kind = kinds[i % 3] if not thorough else None
+        for kind in ([kind] if kind else kinds):
+            name = "pair_%d_%s" % (i, kind)
+            files[name] = pair_program(im, cm, kind)
+            meta[name] = (im, cm, shared, kind)
+    res = rustc_batch.compile_batch(files, tag="c05")
+    for name, errs in res.items():
+        im, cm, shared, kind = meta[name]
+        run.count()
+        run.nontriv(("pair", name))
+        run.dist("compiled_pair:shared=%s" % shared)
+        desc = {"level": "rustc", "interface_methods": im, "contract_methods": cm, "kind": kind, "program": files[name]}
+        overlap = [e for e in errs if "Message overlaps" in e["message"] or "Message overlaps" in e["rendered"]]
+        other = [e for e in errs if e not in overlap]
+        if other and not overlap:
+            run.oracle_fail("contract fails to compile for another reason: %s" % other[0]["message"][:300], desc)
+        elif shared and not overlap:
+            run.oracle_fail("interface and contract share a %s message name but the contract compiles" % kind, desc)
+        elif not shared and overlap:
+            run.oracle_fail("no %s message name is shared but the contract is rejected: %s" % (kind, overlap[0]["message"][:200]), desc)
 
 
 def check_tables(run, rng, thorough):
-    return
+    msgprops.run_l1(run, "C05", rng, 2000 if thorough else 200)
+    msgprops.run_l2(run, "C05", rng, thorough, {"decode": False, "tables": True})
+    check_compiled_pairs(run, rng, thorough)
